@@ -11,6 +11,17 @@ Streams
              Field.apply_masking(inplace=) must reproduce the masked read for the field
              and every metadata construct, and leave the receiver alone when not in place.
              Compared with the Lean model and with netCDF4 as the independent masked read.
+             Constructs: dimension coordinate, auxiliary coordinate (both optionally with bounds
+             of their own data type), field ancillary, cell measure, domain ancillary.
+  C07.data   Data.apply_masking called directly on in-memory data that may already hold masked
+             elements: fill_values None / True / False / a sequence / not a sequence, valid_min,
+             valid_max, valid_range (right and wrong sizes, with valid_min), in place or not.
+             Compared with the Lean model and with an elementwise numpy restatement.
+  C07.dtype  one field variable plus coordinate / bounds / ancillary / cell measure / domain
+             ancillary variables, each packed with its own scale_factor / add_offset (every
+             numeric type, neutral or not, or text) and _Unsigned: the data type advertised
+             before the data are fetched (Data.dtype, construct.dtype) must be the data type
+             of the fetched array (Data.array, a subspace, to_memory) and that of netCDF4.
 """
 import atexit
 import json
@@ -31,8 +42,19 @@ REQUIRED = [
     "C07_mask_off",
     "C07_apply_masking_partial",
     "C07_field_apply_masking_partial",
+    "C07_bounds_fill_value_never_inherited",
+    "C07_promote_is_least_safe_upper_bound",
+    "C07_promote_unique",
+    "C07_promote_matches_numpy",
+    "C07_canCast_matches_numpy",
+    "C07_dtype_advertised_eq_delivered",
+    "C07_dtype_unpack_no_narrowing",
+    "C07_dtype_reference_partial",
+    "C07_data_apply_masking_elementwise",
+    "C07_data_apply_masking_range",
+    "C07_data_apply_masking_argument_errors",
 ]
-BUDGET = {"quick": 2400, "thorough": 40000}
+BUDGET = {"quick": 2600, "thorough": 40000}
 QUICK_JOBS = 8
 RULE = (
     "1-d netCDF variables (4-9 elements) of dtype {i1,i2,i4,i8,u1,u2,u4,u8,f4,f8,S1,str} x random subsets of "
@@ -40,13 +62,22 @@ RULE = (
     "add_offset, _Unsigned (true/True/false/TRUE)} x attribute values {same dtype, other dtype safely castable, type "
     "limits, default fill value, NaN, out of range, fractional, text} x data drawn from {attribute values and their "
     "neighbours, default fill value, NaN, type limits, zero, small numbers} x mask x unpack x backend {netCDF4, "
-    "h5netcdf} x access {Data.array, Data[...] subspace, backend array subspace}; apply stream: field + 0-2 "
-    "coordinate constructs (optionally with bounds) x inplace. non-trivial = at least one of the eight attributes "
-    "present or a default fill value in the data; distinct = distinct (variable configuration, flags, index)"
+    "h5netcdf} x access {Data.array, Data[...] subspace, backend array subspace}; apply stream: field + 0-5 "
+    "metadata constructs {dimension coordinate, auxiliary coordinate (optionally with bounds of the same or another "
+    "data type, without _FillValue, holding their own default fill value), field ancillary, cell measure, domain "
+    "ancillary} x inplace; dtype stream: field + coordinate/bounds/ancillary/cell measure/domain ancillary variables "
+    "of every numeric type x scale_factor, add_offset {absent, text, every numeric type, neutral or not} x _Unsigned x "
+    "unpack x backend x access {Data.array, subspace, to_memory, construct.dtype}; data stream: in-memory int/float "
+    "arrays (1-6 elements, NaN, already masked elements) x fill_values {None, True, False, not a sequence, 0-3 values} x "
+    "own fill value x valid_min x valid_max x valid_range {1,2,3 elements, with valid_min} x inplace; read stream also: "
+    "0-d variables, variables in a group. non-trivial = at least one of the "
+    "eight attributes present or a default fill value in the data; distinct = distinct (variable configuration, "
+    "flags, index)"
 )
 ASSUMPTIONS = [
-    "values are exact integers, NaN or 1-character strings; IEEE rounding, data type promotion and integer overflow in "
-    "unpacking are not modelled (values that overflow or round are compared with netCDF4 only, like every dtype)",
+    "values are exact integers, NaN or 1-character strings; IEEE rounding and integer overflow in the unpacking "
+    "arithmetic are not modelled (values that overflow or round are compared with netCDF4 only); data types ARE "
+    "modelled (dtype stream), on variables whose values are small enough not to overflow",
     "files are written in the default fill mode (nc_inq_var_fill no_fill=0); byte variables created with fill mode "
     "off are outside the generated inputs",
     "vector-valued valid_min, valid_max, scale_factor, add_offset (length >= 2) are not generated: the reference "
@@ -55,8 +86,9 @@ ASSUMPTIONS = [
     "where the reference library itself cannot read a variable (netCDF4 1.7 under numpy 2 fails to build the masked "
     "array of some _Unsigned variables) the read stream is judged by the model alone, and the apply stream compares "
     "apply_masking with cfdm's own masked read",
-    "the model is the code after the four proposed patches fixes/C07-*.patch; on the unpatched tree the four defects "
-    "surface as known findings, never as agreement",
+    "the model is /repo HEAD plus the proposed patches fixes/C07-apply-masking-vector-missing-value.patch, "
+    "fixes/C07-unpacked-dtype.patch and fixes/C07-data-array-unusable-fill-value.patch; on a tree without them the "
+    "three defects surface as known findings, never as agreement",
 ]
 
 _cfdm = None
@@ -65,7 +97,10 @@ _cfdm = None
 def cfdm():
     global _cfdm
     if _cfdm is None:
+        import logging
         import cfdm as m
+        # netcdf_indexer reports "No unpacking done" through the root logger: not an observable here
+        logging.getLogger().setLevel(logging.ERROR)
         _cfdm = m
     return _cfdm
 
@@ -83,10 +118,37 @@ KEY = {"_FillValue": "fv", "missing_value": "mv", "valid_min": "vmin", "valid_ma
        "valid_range": "vr", "scale_factor": "sf", "add_offset": "ao"}
 
 
+NT = ["i1", "u1", "i2", "u2", "i4", "u4", "i8", "u8", "f4", "f8"]
+
+
+def numpy_promotion_text():
+    """Cfdm/Generated/NumpyPromotion.lean: np.result_type and np.can_cast('safe') of the installed
+    numpy on the ten numeric netCDF types (theorems C07_promote_matches_numpy / C07_canCast_matches_numpy
+    tie the model's rule to it)."""
+    rows, cc = [], []
+    for a in NT:
+        for b in NT:
+            # the data type of `data * scale_factor` (an array times a 0-d array) ...
+            r = (np.zeros(2, a) * np.array(1, b)).dtype
+            # ... is np.result_type of the two data types (NEP 50: 0-d arrays are not weakly typed)
+            if r != np.result_type(np.dtype(a), np.dtype(b)) or r != (np.zeros(2, a) + np.array(1, b)).dtype:
+                raise fw.HarnessError(f"numpy: array (op) 0-d array is not np.result_type for {a},{b}")
+            rows.append(f'  ("{a}", "{b}", "{r.str[1:]}")')
+            cc.append(f'  ("{a}", "{b}", {"true" if np.can_cast(np.dtype(a), np.dtype(b), "safe") else "false"})')
+    return ("/- GENERATED by harness/corr/C07.py pre() from the installed numpy (np.result_type, np.can_cast 'safe'). "
+            "Do not edit. -/\n"
+            "namespace Cfdm.Generated.NumpyPromotion\n\n"
+            "def resultType : List (String × String × String) := [\n" + ",\n".join(rows) + "]\n\n"
+            "def canCastSafe : List (String × String × Bool) := [\n" + ",\n".join(cc) + "]\n\n"
+            "end Cfdm.Generated.NumpyPromotion\n")
+
+
 def pre():
-    """The model's default fill table must be that of the installed reference library."""
+    """The model's default fill table must be that of the installed reference library; the numpy
+    promotion tables are regenerated for the Lean build."""
     import netCDF4
     scratch()
+    fw.write_if_changed(fw.LEAN / "Cfdm" / "Generated" / "NumpyPromotion.lean", numpy_promotion_text())
     for k, v in DEFAULT_FILL.items():
         if k in ("S1", "str"):
             if netCDF4.default_fillvals["S1"] != "\x00":
@@ -188,6 +250,8 @@ def gen_var(rng, role="field", n=None, for_apply=False):
     """One variable configuration.  role: field | dim | aux | bounds."""
     if role == "dim":
         dt = rng.choice(["i2", "i4", "f4", "f8", "i8", "u2", "i1"])
+    elif role in ("msr", "dom"):
+        dt = rng.choice(NT)
     elif role == "bounds":
         dt = None
     else:
@@ -218,7 +282,7 @@ def gen_var_dt(rng, dt, n=None, for_apply=False):
             attrs["_FillValue"] = dict(dt=dt, v=[rng.choice(p)])
         if rng.random() < pr:
             a = gen_attr_scalar(rng, dt, p, allow_frac=frac)
-            if "v" in a and rng.random() < 0.3:
+            if "v" in a and rng.random() < (0.12 if for_apply else 0.3):
                 k = rng.randint(1, 2)
                 a["v"] = a["v"] + [rng.choice(p) for _ in range(k)]
                 if not all(fits(a["dt"], x) for x in a["v"]):
@@ -241,7 +305,7 @@ def gen_var_dt(rng, dt, n=None, for_apply=False):
                     a["dt"] = dt if all(fits(dt, x) for x in vals) else "f8"
             attrs["valid_range"] = a
         ps = 0.25 if not for_apply else 0.12
-        small = [1, 0, 2, 3, -1, 10, 1, 0]
+        small = [1, 0, 2, 3, -1, 10, 2, 5]
         if rng.random() < ps:
             r = rng.random()
             if r < 0.02:
@@ -336,7 +400,7 @@ def transformed(var, unpack):
     """The read with unpack=True changes the stored values' representation."""
     if not unpack:
         return False
-    if uns_true(var) and var["dt"][0] in "if":
+    if uns_true(var) and var["dt"][0] == "i":
         return True
     return any(k in var["attrs"] and "v" in var["attrs"][k] for k in ("scale_factor", "add_offset"))
 
@@ -359,14 +423,35 @@ def trivial_single(var):
     return "v" in ao and ao["v"][0] == 0
 
 
+def viewed_dtype(var):
+    dt = np.dtype(var["dt"])
+    if uns_true(var) and dt.kind == "i":
+        dt = np.dtype(f"u{dt.itemsize}")
+    return dt
+
+
+def head_advertised(var, unpack):
+    """Data.dtype as NetCDFRead announces it WITHOUT fixes/C07-unpacked-dtype.patch (classification of
+    the known finding only): np.result_type(add_offset, scale_factor) folded into the type of the
+    field's data variable; the packed type for every other construct."""
+    dt = np.dtype(var["dt"])
+    if var["role"] != "field" or not unpack:
+        return dcode(dt)
+    vals = [var["attrs"].get(k) for k in ("add_offset", "scale_factor")]
+    vals = [np.dtype(a["dt"]) for a in vals if a is not None and "v" in a]
+    if not vals:
+        return dcode(dt)
+    return dcode(np.result_type(dt, np.result_type(*vals)))
+
+
 def inherits(b, c):
     """apply_masking gives the bounds a property of the parent that the read never applies."""
     return any(k in c["attrs"] and k not in b["attrs"] for k in ("missing_value", "valid_min", "valid_max", "valid_range"))
 
 
 def apply_ok(var, unpack):
-    """The Lean predicate ApplyOK, restated."""
-    return not (has_unsafe(var) or vector_mv(var) or range_conflict(var) or str_valid(var) or transformed(var, unpack))
+    """The Lean predicate ApplyOK, restated (a safe vector missing_value is inside it)."""
+    return not (has_unsafe(var) or range_conflict(var) or str_valid(var) or transformed(var, unpack))
 
 
 def sanitise(var, unpack):
@@ -376,8 +461,6 @@ def sanitise(var, unpack):
     for k in MASK_ATTRS:
         if attr_unsafe(var, k):
             del A[k]
-    if vector_mv(var):
-        A["missing_value"] = dict(A["missing_value"], v=A["missing_value"]["v"][:1])
     if "valid_range" in A:
         if "v" in A["valid_range"] and len(A["valid_range"]["v"]) != 2:
             del A["valid_range"]
@@ -449,65 +532,239 @@ def positions(ix, n):
     return list(ix["l"])
 
 
+CON_ROLES = [("x", "dim", 0.7, 0.6), ("a", "aux", 0.5, 0.4), ("n", "anc", 0.25, 0.0), ("m", "msr", 0.2, 0.0),
+             ("d", "dom", 0.2, 0.0)]
+INHERITED = ("missing_value", "valid_min", "valid_max", "valid_range")
+
+
 def gen(rng, tier, n):
-    n_apply = max(8, int(n * 0.22))
-    n_read = n - n_apply
+    n_apply = max(8, int(n * 0.2))
+    n_dtype = max(8, int(n * 0.1))
+    n_data = max(8, int(n * 0.06))
+    n_read = n - n_apply - n_dtype - n_data
     made = 0
     while made < n_read:
-        var = gen_var(rng)
+        r = rng.random()
+        if r < 0.06:
+            # a 0-d variable (numpy scalars / the masked constant inside netcdf_indexer and the backends)
+            var = gen_var(rng, n=1)
+            var["scalar"] = True
+            if rng.random() < 0.5:
+                hot = [a["v"][0] for k, a in var["attrs"].items() if k in ("_FillValue", "missing_value") and "v" in a
+                       and fits(var["dt"], a["v"][0])] + [DEFAULT_FILL[var["dt"]]]
+                var["data"] = [rng.choice(hot)]
+        else:
+            var = gen_var(rng)
+            if r < 0.12:
+                var["group"] = True   # the variable and its dimension live in a group
         combos = [(m, u, b) for m in (True, False) for u in (True, False) for b in ("netCDF4", "h5netcdf")]
         rng.shuffle(combos)
         k = 8 if tier == "thorough" else rng.randint(3, 6)
         for m, u, b in combos[:k]:
-            ix = gen_index(rng, len(var["data"]))
+            ix = None if var.get("scalar") else gen_index(rng, len(var["data"]))
             route = rng.choices(["data", "source"], [3, 2])[0]
             if vector_mv(var) or (not is_str(var["dt"]) and "text" in var["attrs"].get("missing_value", {})):
-                # Data.array cannot use such a missing_value as its fill value (known finding):
-                # look at the mask mostly through the backend array
-                route = rng.choices(["data", "source"], [1, 6])[0]
+                # without fixes/C07-data-array-unusable-fill-value.patch Data.array cannot use such a
+                # missing_value as its fill value (known finding): look through the backend array more often
+                route = rng.choices(["data", "source"], [2, 3])[0]
             yield mk_read(dict(var=var, mask=m, unpack=u, backend=b, ix=ix, route=route))
             made += 1
     for _ in range(n_apply):
-        nn = rng.randint(3, 6)
-        unpack = rng.random() < 0.4
-        clean = rng.random() < 0.55  # inside the hypotheses of C07_apply_masking_partial
+        yield mk_apply(gen_apply(rng))
+    for _ in range(n_dtype):
+        yield mk_dtype(gen_dtype(rng))
+    for _ in range(n_data):
+        yield mk_data(gen_data(rng))
 
-        def fin(v):
-            if not unpack_exact(v):
-                v = dict(v, attrs={k: a for k, a in v["attrs"].items() if k not in ("scale_factor", "add_offset")})
-            return sanitise(v, unpack) if clean else v
-        f = fin(gen_var(rng, "field", nn, for_apply=True))
-        cons = []
-        if rng.random() < 0.7:
-            c = fin(gen_var(rng, "dim", nn, for_apply=True))
-            b = None
-            if rng.random() < 0.6:
-                b = gen_var_dt(rng, c["dt"], 2 * nn, for_apply=True)
-                if rng.random() < 0.6:
-                    b["attrs"] = {}
-                    b["uns"] = None
+
+def gen_apply(rng):
+    """A field and its metadata constructs.  `clean`: every variable inside the hypotheses of
+    C07_field_apply_masking_partial; `one`: a clean case with exactly one deviation injected (one
+    of the open findings); `wild`: whatever the variable generator gives."""
+    nn = rng.randint(3, 6)
+    unpack = rng.random() < 0.4
+    r = rng.random()
+    mode = "clean" if r < 0.76 else ("one" if r < 0.92 else "wild")
+
+    def fin(v):
+        if not unpack_exact(v):
+            v = dict(v, attrs={k: a for k, a in v["attrs"].items() if k not in ("scale_factor", "add_offset")})
+        return v if mode == "wild" else sanitise(v, unpack)
+    f = fin(gen_var(rng, "field", nn, for_apply=True))
+    cons = []
+    for name, role, p_con, p_bounds in CON_ROLES:
+        if rng.random() >= p_con:
+            continue
+        c = fin(gen_var(rng, role, nn, for_apply=True))
+        b = None
+        if not is_str(c["dt"]) and rng.random() < p_bounds:
+            # bounds of the parent's type or of another one; often without any attribute (the
+            # reader must record the default fill value OF THE BOUNDS' TYPE), holding that value
+            bdt = c["dt"] if rng.random() < 0.5 else rng.choice(NT)
+            b = gen_var_dt(rng, bdt, 2 * nn, for_apply=True)
+            k = rng.random()
+            if k < 0.5:
+                b["attrs"] = {}
+                b["uns"] = None
+            elif k < 0.7:
+                b["attrs"].pop("_FillValue", None)
+            if "_FillValue" not in b["attrs"] and rng.random() < 0.6:
+                b["data"][rng.randrange(2 * nn)] = DEFAULT_FILL[bdt]
+            b = fin(b)
+            if mode != "wild" and inherits(b, c):
+                b["attrs"].update({k: c["attrs"][k] for k in INHERITED if k in c["attrs"] and k not in b["attrs"]})
                 b = fin(b)
-                if clean and inherits(b, c):
-                    b["attrs"].update({k: c["attrs"][k] for k in ("missing_value", "valid_min", "valid_max", "valid_range")
-                                       if k in c["attrs"] and k not in b["attrs"]})
-                    b = fin(b)
-            cons.append(dict(name="x", main=c, bounds=b))
+                if inherits(b, c):
+                    # the parent's attribute does not fit the bounds' type: the parent goes without
+                    c = dict(c, attrs={k: a for k, a in c["attrs"].items() if k not in INHERITED or k in b["attrs"]})
+        cons.append(dict(name=name, main=c, bounds=b))
+    p = dict(field=f, cons=cons, unpack=unpack, inplace=rng.random() < 0.5, backend=rng.choice(["netCDF4", "h5netcdf"]))
+    if mode == "one":
+        inject(rng, p)
+    return p
+
+
+def inject(rng, p):
+    """Take a clean apply case outside the hypotheses in exactly one way."""
+    allv = [v for _, v in apply_vars(p)]
+    nums = [v for v in allv if not is_str(v["dt"])]
+    ints = [v for v in nums if v["dt"][0] in "iu" and v["dt"] not in ("i8", "u8")]
+    kinds = ["unsafe", "range", "strvalid"]
+    if p["unpack"] and nums:
+        kinds.append("transformed")
+    withb = [c for c in p["cons"] if c["bounds"] is not None and not is_str(c["main"]["dt"])]
+    if withb:
+        kinds += ["inherit", "inherit"]
+    k = rng.choice(kinds)
+    if k == "unsafe" and nums:
+        v = rng.choice(ints or nums)
+        key = rng.choice(["valid_min", "valid_max", "missing_value"])
+        if v["dt"][0] in "iu" and v["dt"] not in ("i8", "u8") and rng.random() < 0.7:
+            lo, hi = lim(v["dt"])
+            v["attrs"][key] = dict(dt="i8", v=[rng.choice([hi + 1, lo - 1, hi + 45])])
+        elif v["dt"][0] in "iu" and rng.random() < 0.5:
+            v["attrs"][key] = dict(dt="f8", v=["nan"])
+        else:
+            v["attrs"][key] = dict(text="abc")
+        v["attrs"].pop("valid_range", None)
+    elif k == "range" and nums:
+        v = rng.choice(nums)
+        pl = [x for x in pool(rng, v["dt"]) if isinstance(x, int) and fits(v["dt"], x)]
+        lo, hi = sorted(rng.sample(pl, 2))
         if rng.random() < 0.6:
-            c = fin(gen_var(rng, "aux", nn, for_apply=True))
-            b = None
-            if not is_str(c["dt"]) and rng.random() < 0.3:
-                b = gen_var_dt(rng, c["dt"], 2 * nn, for_apply=True)
-                if rng.random() < 0.5:
-                    b["attrs"] = {}
-                    b["uns"] = None
-                b = fin(b)
-                if clean and inherits(b, c):
-                    b["attrs"].update({k: c["attrs"][k] for k in ("missing_value", "valid_min", "valid_max", "valid_range")
-                                       if k in c["attrs"] and k not in b["attrs"]})
-                    b = fin(b)
-            cons.append(dict(name="a", main=c, bounds=b))
-        yield mk_apply(dict(field=f, cons=cons, unpack=unpack, inplace=rng.random() < 0.5,
-                            backend=rng.choice(["netCDF4", "h5netcdf"])))
+            v["attrs"]["valid_range"] = dict(dt=v["dt"], v=[lo, hi])
+            v["attrs"][rng.choice(["valid_min", "valid_max"])] = dict(dt=v["dt"], v=[rng.choice(pl)])
+        else:
+            v["attrs"].pop("valid_min", None)
+            v["attrs"].pop("valid_max", None)
+            v["attrs"]["valid_range"] = dict(dt=v["dt"], v=[lo, hi, hi] if rng.random() < 0.5 else [lo])
+    elif k == "strvalid":
+        strs = [v for v in allv if v["dt"] == "S1"]
+        if strs:
+            rng.choice(strs)["attrs"][rng.choice(["valid_min", "valid_max"])] = dict(text="b")
+    elif k == "transformed":
+        v = rng.choice(nums)
+        if v["dt"][0] == "i" and rng.random() < 0.5:
+            v["uns"] = "true"
+            v["data"][0] = -1
+        else:
+            v["attrs"]["scale_factor"] = dict(dt=v["dt"], v=[2])
+            if not unpack_exact(v):
+                v["attrs"]["scale_factor"] = dict(dt=v["dt"], v=[1])
+                v["attrs"]["add_offset"] = dict(dt=v["dt"], v=[1])
+                if not unpack_exact(v):
+                    del v["attrs"]["scale_factor"], v["attrs"]["add_offset"]
+    elif k == "inherit":
+        c = rng.choice(withb)
+        dt = c["main"]["dt"]
+        pl = [x for x in pool(rng, dt) if isinstance(x, int) and fits(dt, x)]
+        key = rng.choice(["valid_min", "valid_max", "missing_value"])
+        c["main"]["attrs"].pop("valid_range", None)
+        c["bounds"]["attrs"].pop(key, None)
+        c["main"]["attrs"][key] = dict(dt=dt, v=[rng.choice(pl)])
+
+
+def gen_data(rng):
+    """Data.apply_masking called directly."""
+    dt = rng.choice(["i4", "f8", "f4", "i2"])
+    n = rng.randint(1, 6)
+    pl = [0, 1, 2, 3, 5, 8, -1, -4, 10]
+    if dt[0] == "f":
+        pl += ["nan", "nan"]
+    arr = [rng.choice(pl) for _ in range(n)]
+    msk = [rng.random() < 0.2 for _ in range(n)] if rng.random() < 0.5 else [False] * n
+    pick = lambda: rng.choice(arr + pl)
+    dfill = (rng.choice(arr) if rng.random() < 0.6 else pick()) if rng.random() < 0.6 else None
+    r = rng.random()
+    if r < 0.16:
+        fills = "N"
+    elif r < 0.32:
+        fills = "T"
+    elif r < 0.38:
+        fills = "F"
+    elif r < 0.44:
+        fills = "X"
+    else:
+        fills = [pick() for _ in range(rng.choice([0, 1, 1, 2, 3]))]
+    if dt[0] != "f":
+        # a NaN fill value on integer data is legal (it matches nothing)
+        fills = fills if isinstance(fills, str) else [x if x != "nan" or rng.random() < 0.3 else 1 for x in fills]
+    num = [x for x in pl if x != "nan"]
+    vmin = rng.choice(num) if rng.random() < 0.35 else None
+    vmax = rng.choice(num) if rng.random() < 0.35 else None
+    vr = None
+    if rng.random() < 0.3:
+        k = rng.choices([2, 1, 3], [8, 1, 1])[0]
+        vr = sorted(rng.choice(num) for _ in range(k))
+        if rng.random() < 0.8:
+            vmin = vmax = None
+    return dict(dt=dt, arr=arr, mask=msk, dfill=dfill, fills=fills, vmin=vmin, vmax=vmax, vr=vr, inplace=rng.random() < 0.5)
+
+
+DT_ROLES = [("x", "dim", 0.6), ("x_bnds", "bounds", 0.0), ("a", "aux", 0.5), ("a_bnds", "bounds", 0.0), ("n", "anc", 0.4),
+            ("m", "msr", 0.3), ("d", "dom", 0.3)]
+
+
+def gen_dtype(rng):
+    """Variables of every numeric type packed with scale_factor / add_offset of every type."""
+    unpack = rng.random() < 0.85
+    field_only = rng.random() < 0.3   # only the data variable is packed
+
+    def attr(neutral, other, plain):
+        r = rng.random()
+        if plain or r < 0.4:
+            return None
+        if r < 0.44:
+            return dict(text="abc")
+        t = rng.choices(NT, [2, 2, 3, 2, 2, 2, 1, 1, 6, 6])[0]
+        return dict(dt=t, v=[neutral if rng.random() < 0.12 else other])
+
+    def var(name, role):
+        dt = rng.choice(NT)
+        plain = (field_only and role != "field") or rng.random() < 0.15
+        A = {}
+        sf, ao = attr(1, 2, plain), attr(0, 3, plain)
+        if sf is not None:
+            A["scale_factor"] = sf
+        if ao is not None:
+            A["add_offset"] = ao
+        uns = None
+        if not plain and rng.random() < (0.3 if dt[0] == "i" else 0.1):
+            uns = rng.choice(["true", "true", "True", "false"])
+        n = 6 if role == "bounds" else 3
+        return dict(name=name, role=role, dt=dt, data=list(range(1, n + 1)), attrs=A, uns=uns)
+    vs = [var("v", "field")]
+    have = set()
+    for name, role, pr in DT_ROLES:
+        if role == "bounds":
+            if name[0] in have and rng.random() < 0.6:
+                vs.append(var(name, role))
+            continue
+        if rng.random() < pr:
+            have.add(name)
+            vs.append(var(name, role))
+    return dict(vars=vs, unpack=unpack, backend=rng.choice(["netCDF4", "h5netcdf"]),
+                access=rng.choice(["array", "array", "sub", "memory", "con"]))
 
 
 # ---------------------------------------------------------------- protocol lines
@@ -584,6 +841,10 @@ def mk_read(p):
                 f"ix=[{','.join(map(str, pos))}]")
     tags = var_tags(var) + [f"mask:{int(p['mask'])}", f"unpack:{int(p['unpack'])}", "be:" + p["backend"],
                             "route:" + p["route"], "ix:" + ("full" if p["ix"] is None else next(iter(p["ix"])))]
+    if var.get("scalar"):
+        tags.append("shape:0-d")
+    if var.get("group"):
+        tags.append("in-group")
     return Case("C07.read", p, line, nontrivial=nontrivial_var(var), tags=tags)
 
 
@@ -596,11 +857,15 @@ def mk_apply(p):
         b = "-" if c["bounds"] is None else enc_var(c["bounds"], True, ";")
         if m is None or b is None:
             ok = False
-        if c["bounds"] is not None and (vector_mv(c["bounds"]) or vector_mv(c["main"])):
-            # numpy broadcasts a vector fill value against the trailing (vertex) axis of 2-d
-            # bounds; the model's arrays are flat, so this (excluded) corner is oracle only
-            ok = False
         cs.append(f"{m}/{b}")
+    allv = apply_vars(p)
+    inside = all(apply_ok(v, p["unpack"]) for _, v in allv) and not any(
+        c["bounds"] is not None and inherits(c["bounds"], c["main"]) for c in p["cons"])
+    if any(vector_mv(v) for _, v in allv) and not inside:
+        # the model takes a vector missing_value apart (the proposed patch); a tree without the patch
+        # compares `array == vector` with numpy broadcasting, which outside the hypotheses can agree
+        # with the masked read by accident: oracle only
+        ok = False
     line = None
     if ok:
         line = f"C07.apply f={f} c={'|'.join(cs)} unpack={int(p['unpack'])} inplace={int(p['inplace'])}"
@@ -608,11 +873,22 @@ def mk_apply(p):
                                                           f"apply:unpack={int(p['unpack'])}"]
     for c in p["cons"]:
         tags += var_tags(c["main"], "ap-")
+        tags.append("apply:con=" + c["name"])
         if c["bounds"] is not None:
+            b = c["bounds"]
             tags.append("apply:bounds")
-    allv = apply_vars(p)
-    tags.append("apply:in-hypotheses" if all(apply_ok(v, p["unpack"]) for _, v in allv) and not any(
-        c["bounds"] is not None and inherits(c["bounds"], c["main"]) for c in p["cons"]) else "apply:outside-hypotheses")
+            tags.append("apply:bounds-dtype-" + ("same" if b["dt"] == c["main"]["dt"] else "differs"))
+            if "_FillValue" not in b["attrs"]:
+                tags.append("apply:bounds-no-fillvalue")
+                if DEFAULT_FILL[b["dt"]] in b["data"]:
+                    tags.append("apply:bounds-holds-own-default-fill")
+                    if "_FillValue" in c["main"]["attrs"] or b["dt"] != c["main"]["dt"]:
+                        tags.append("apply:bounds-default-fill-vs-parent-fill")
+            if vector_mv(b):
+                tags.append("apply:bounds-vector-mv")
+    if any(vector_mv(v) for _, v in allv):
+        tags.append("apply:vector-mv")
+    tags.append("apply:in-hypotheses" if inside else "apply:outside-hypotheses")
     nt = nontrivial_var(p["field"]) or any(nontrivial_var(c["main"]) for c in p["cons"])
     return Case("C07.apply", p, line, nontrivial=nt, tags=tags)
 
@@ -626,8 +902,54 @@ def apply_vars(p):
     return out
 
 
+def is_neutral(key, a):
+    return a["v"][0] == (1 if key == "scale_factor" else 0)
+
+
+def enc_pack(key, a):
+    if a is None:
+        return "-"
+    if "text" in a:
+        return "t"
+    return a["dt"] + ("n" if is_neutral(key, a) else "s")
+
+
+def mk_dtype(p):
+    parts = []
+    tags = ["dtype:unpack=%d" % int(p["unpack"]), "dtype:access=" + p["access"], "dtype:be=" + p["backend"]]
+    for v in p["vars"]:
+        sf, ao = v["attrs"].get("scale_factor"), v["attrs"].get("add_offset")
+        parts.append(f"{v['dt']}:{enc_pack('scale_factor', sf)}:{enc_pack('add_offset', ao)}:{int(uns_true(v))}")
+        tags.append("dtype:role=" + v["role"])
+        tags.append("dtype:dt=" + v["dt"])
+        for key, a in (("scale_factor", sf), ("add_offset", ao)):
+            if a is not None:
+                tags.append(f"dtype:{KEY[key]}=" + ("text" if "text" in a else a["dt"] + ("-neutral" if is_neutral(key, a) else "")))
+        if sf is not None and ao is not None and "v" in sf and "v" in ao:
+            tags.append("dtype:both-" + ("same-type" if sf["dt"] == ao["dt"] else "mixed-types"))
+        if uns_true(v):
+            tags.append("dtype:unsigned")
+    line = f"C07.dtype vars={'|'.join(parts)} unpack={int(p['unpack'])}"
+    nt = any(v["attrs"] or v["uns"] for v in p["vars"])
+    return Case("C07.dtype", p, line, nontrivial=nt, tags=tags)
+
+
+def mk_data(p):
+    ev = lambda x: "nan" if x == "nan" else str(x)
+    opt = lambda x: "-" if x is None else "[" + ev(x) + "]"
+    arr = "[" + ",".join("--" if m else ev(x) for x, m in zip(p["arr"], p["mask"])) + "]"
+    fills = p["fills"] if isinstance(p["fills"], str) else "[" + ",".join(ev(x) for x in p["fills"]) + "]"
+    vr = "-" if p["vr"] is None else "[" + ",".join(ev(x) for x in p["vr"]) + "]"
+    line = (f"C07.data arr={arr} dfill={opt(p['dfill'])} fills={fills} vmin={opt(p['vmin'])} vmax={opt(p['vmax'])} "
+            f"vr={vr} inplace={int(p['inplace'])}")
+    tags = ["data:fills=" + (p["fills"] if isinstance(p["fills"], str) else f"seq{len(p['fills'])}"), "data:dt=" + p["dt"],
+            "data:premasked=" + str(int(any(p["mask"]))), "data:vr=" + ("-" if p["vr"] is None else str(len(p["vr"]))),
+            "data:vmin/vmax=" + str(int(p["vmin"] is not None)) + str(int(p["vmax"] is not None))]
+    return Case("C07.data", p, line, nontrivial=True, tags=tags)
+
+
 def from_payload(stream, payload):
-    return {"C07.read": mk_read, "C07.apply": mk_apply}[stream](payload)
+    return {"C07.read": mk_read, "C07.apply": mk_apply, "C07.dtype": mk_dtype, "C07.data": mk_data}[stream](payload)
 
 
 # ---------------------------------------------------------------- files
@@ -732,29 +1054,68 @@ def read_file(p):
     key = "r" + json.dumps(var, sort_keys=True)
 
     def w(ds):
-        ds.createDimension("x", len(var["data"]))
-        write_var(ds, "v", var, ("x",), dict(long_name="v"))
+        if var.get("group"):
+            ds = ds.createGroup("g")
+        if var.get("scalar"):
+            write_var(ds, "v", var, (), dict(long_name="v"))
+        else:
+            ds.createDimension("x", len(var["data"]))
+            write_var(ds, "v", var, ("x",), dict(long_name="v"))
     return file_for(key, w)
+
+
+def write_layout(ds, n, field, cons):
+    """One field variable `v` over x (over (z, x) with a size-1 z when a domain ancillary is wanted) and
+    its constructs: x dimension coordinate, a auxiliary coordinate (both optionally with bounds), n field
+    ancillary, m cell measure, d domain ancillary (a term of the parametric vertical coordinate z).
+    cons: list of (name, main, bounds)."""
+    ds.createDimension("x", n)
+    ds.createDimension("bnds", 2)
+    names = [c[0] for c in cons]
+    extra = dict(long_name="v")
+    fdims = ("x",)
+    if "a" in names:
+        extra["coordinates"] = "a"
+    if "n" in names:
+        extra["ancillary_variables"] = "n"
+    if "m" in names:
+        extra["cell_measures"] = "area: m"
+    if "d" in names:
+        ds.createDimension("z", 1)
+        fdims = ("z", "x")
+        z = ds.createVariable("z", "f8", ("z",))
+        z.standard_name = "atmosphere_sigma_coordinate"
+        z.formula_terms = "sigma: z ps: d ptop: p0"
+        z[...] = [0.5]
+        p0 = ds.createVariable("p0", "f8", ())
+        p0.long_name = "p0"
+        p0[...] = 1.0
+    for name, main, bounds in cons:
+        ex = dict(long_name=name + "_coord")
+        if name == "m":
+            ex["units"] = "m2"
+        if bounds is not None:
+            ex["bounds"] = name + "_bnds"
+            write_var(ds, name + "_bnds", bounds, ("x", "bnds"))
+        write_var(ds, name, main, ("x",), ex)
+    write_var(ds, "v", field, fdims, extra)
 
 
 def apply_file(p):
     key = "a" + json.dumps([p["field"], p["cons"]], sort_keys=True)
 
     def w(ds):
-        n = len(p["field"]["data"])
-        ds.createDimension("x", n)
-        ds.createDimension("bnds", 2)
-        aux = [c["name"] for c in p["cons"] if c["name"] != "x"]
-        extra = dict(long_name="v")
-        if aux:
-            extra["coordinates"] = " ".join(aux)
-        for c in p["cons"]:
-            ex = dict(long_name=c["name"] + "_coord")
-            if c["bounds"] is not None:
-                ex["bounds"] = c["name"] + "_bnds"
-                write_var(ds, c["name"] + "_bnds", c["bounds"], ("x", "bnds"))
-            write_var(ds, c["name"], c["main"], ("x",), ex)
-        write_var(ds, "v", p["field"], ("x",), extra)
+        write_layout(ds, len(p["field"]["data"]), p["field"], [(c["name"], c["main"], c["bounds"]) for c in p["cons"]])
+    return file_for(key, w)
+
+
+def dtype_file(p):
+    key = "d" + json.dumps(p["vars"], sort_keys=True)
+
+    def w(ds):
+        byname = {v["name"]: v for v in p["vars"]}
+        cons = [(v["name"], v, byname.get(v["name"] + "_bnds")) for v in p["vars"] if v["role"] not in ("field", "bounds")]
+        write_layout(ds, 3, byname["v"], cons)
     return file_for(key, w)
 
 
@@ -825,9 +1186,11 @@ def impl(c):
         path = read_file(p)
         try:
             fs = C.read(path, mask=p["mask"], unpack=p["unpack"], netcdf_backend=p["backend"])
-            f = [g for g in fs if g.nc_get_variable() == "v"][0]
+            f = [g for g in fs if g.nc_get_variable() in ("v", "/g/v")][0]
             if p["route"] == "data":
                 a = f.data.array if p["ix"] is None else f.data[py_index(p["ix"])].array
+            elif p["var"].get("scalar"):
+                a = f.data.source()[...]
             else:
                 a = f.data.source()[(py_index(p["ix"]),)]
         except Exception as e:
@@ -875,7 +1238,72 @@ def impl(c):
             close_leaked()
             return out
         return out
+    if c.stream == "C07.data":
+        val = lambda x: (np.nan if x == "nan" else x)
+        a = np.ma.array(np_values(p["dt"], p["arr"]), mask=list(p["mask"])) if any(p["mask"]) else np_values(p["dt"], p["arr"])
+        kw = {}
+        if p["dfill"] is not None:
+            kw["fill_value"] = val(p["dfill"])
+        d = C.Data(a, **kw)
+        fills = {"N": None, "T": True, "F": False, "X": 5}.get(p["fills"]) if isinstance(p["fills"], str) else [val(x) for x in p["fills"]]
+        if p["fills"] == "X" and len(p["arr"]) % 2:
+            fills = "ab"
+        args = dict(fill_values=fills, valid_min=p["vmin"], valid_max=p["vmax"], valid_range=p["vr"])
+        try:
+            if p["inplace"]:
+                d.apply_masking(inplace=True, **args)
+                e = d
+            else:
+                e = d.apply_masking(**args)
+            return f"recv={canon_array(d.array)} res={canon_array(e.array)}"
+        except Exception as ex:
+            c.extra = dict(exc=repr(ex)[:300])
+            return "raised:" + fw.exc_enum(ex)
+    if c.stream == "C07.dtype":
+        path = dtype_file(p)
+        c.extra = {}
+        try:
+            fs = C.read(path, unpack=p["unpack"], netcdf_backend=p["backend"])
+            f = [g for g in fs if g.nc_get_variable() == "v"][0]
+            out = []
+            for v in p["vars"]:
+                if v["role"] == "field":
+                    obj = f
+                elif v["role"] == "bounds":
+                    obj = construct_by_ncvar(f, v["name"][:-5]).bounds
+                else:
+                    obj = construct_by_ncvar(f, v["name"])
+                d = obj.data
+                acc = p["access"]
+                if acc == "con":
+                    adv, got = [obj.dtype], [obj.array.dtype]
+                else:
+                    adv = [d.dtype]   # before anything is fetched
+                    if acc == "array":
+                        got = [d.array.dtype]
+                    elif acc == "sub":
+                        e = d[(slice(0, 1),) * d.ndim]
+                        got = [e.dtype, e.array.dtype]
+                    else:
+                        m = d.to_memory()
+                        got = [m.dtype, m.array.dtype]
+                    adv.append(d.dtype)   # ... and afterwards
+                out.append("~".join(sorted({dcode(x) for x in adv})) + "/" + "~".join(sorted({dcode(x) for x in got})))
+            return "|".join(out)
+        except fw.HarnessError:
+            raise
+        except Exception as e:
+            c.extra = dict(exc=repr(e)[:300])
+            out = "raised:" + fw.exc_enum(e)
+            e = None
+            close_leaked()
+            return out
     raise fw.HarnessError("unknown stream " + c.stream)
+
+
+def dcode(dt):
+    dt = np.dtype(dt)
+    return dt.str[1:] if dt.kind in "iuf" else str(dt)
 
 
 def construct_by_ncvar(f, name):
@@ -908,6 +1336,9 @@ def _vals(s):
 def agree(c):
     if c.impl_out == c.model_out:
         return True
+    if c.stream == "C07.dtype":
+        # the model line carries advertised/delivered/reference; the implementation the first two
+        return c.impl_out == "|".join("/".join(x.split("/")[:2]) for x in str(c.model_out).split("|"))
     if c.stream == "C07.read" and c.impl_out.startswith("kind=") and c.model_out.startswith("kind="):
         # integer overflow / rounding in numpy's unpacking arithmetic is outside the model
         # (exact integers): where it occurs for this variable only the kind and the mask
@@ -923,15 +1354,17 @@ def agree(c):
 
 
 # ---------------------------------------------------------------- oracle (netCDF4 only)
-def ref_read(path, name, mask, scale, index=None, strdt=None):
+def ref_read(path, name, mask, scale, index=None, strdt=None, group=False):
     import netCDF4
     ds = netCDF4.Dataset(path)
     try:
-        v = ds.variables[name]
+        v = (ds.groups["g"] if group else ds).variables[name]
         v.set_auto_mask(bool(mask))
         v.set_auto_scale(bool(scale))
         v.set_always_mask(False)
         a = v[...] if index is None else v[index]
+        if isinstance(a, str):
+            a = np.array(a)   # a 0-d variable-length string variable
         if v.dtype == "S1" and a.ndim >= 1 and v.dimensions[-1] == "strlen1":
             m = np.ma.getmaskarray(a).any(axis=-1)
             d = np.array([b"".join(row).decode() for row in np.ma.getdata(a).reshape(-1, a.shape[-1])],
@@ -972,7 +1405,7 @@ def oracle(c):
         path = read_file(p)
         idx = None if p["ix"] is None else (py_index(p["ix"]),)
         try:
-            ref = ref_read(path, "v", p["mask"], p["unpack"], idx)
+            ref = ref_read(path, "v", p["mask"], p["unpack"], idx, group=bool(p["var"].get("group")))
         except Exception as e:
             # the reference library itself cannot read this configuration (e.g. netCDF4 1.7
             # under numpy 2 fails to build the masked array of an _Unsigned variable): it
@@ -994,7 +1427,8 @@ def oracle(c):
             return f"result kind {ik} != reference {rk}"
         rd, idt = ref.dtype, a.dtype
         if p["var"]["dt"] in ("S1", "str"):
-            if idt.kind != "U":
+            if idt.kind != "U" and not (np.ndim(a) == 0 and np.ma.is_masked(a) and np.ma.is_masked(ref)):
+                # (a missing 0-d value is numpy's float64 masked constant, which has no string type)
                 return f"dtype {idt} is not a unicode string type"
         elif rd != idt:
             return f"dtype {idt} != reference {rd}"
@@ -1041,6 +1475,56 @@ def oracle(c):
         if got_recv != want_recv:
             return f"receiver afterwards {got_recv}, expected {want_recv}"
         return None
+    if c.stream == "C07.data":
+        # independent elementwise restatement, in Python
+        def show(xs):
+            return "[" + ",".join("--" if x is None else ("nan" if x == "nan" else str(x)) for x in xs) + "]"
+        before = [None if m else x for x, m in zip(p["arr"], p["mask"])]
+        vmin, vmax, vr = p["vmin"], p["vmax"], p["vr"]
+        want = None
+        if vr is not None and (vmin is not None or vmax is not None or len(vr) != 2):
+            want = "raised:ValueError"
+        elif p["fills"] == "X":
+            want = "raised:TypeError"
+        else:
+            if vr is not None:
+                vmin, vmax = vr
+            fl = {"N": [], "F": [], "T": [] if p["dfill"] is None else [p["dfill"]]}.get(p["fills"]) if isinstance(p["fills"], str) else p["fills"]
+            after = []
+            for x in before:
+                if x is None:
+                    after.append(None)
+                elif x == "nan":
+                    after.append(None if "nan" in fl else "nan")
+                else:
+                    gone = x in [f for f in fl if f != "nan"] or (vmin is not None and x < vmin) or (vmax is not None and x > vmax)
+                    after.append(None if gone else x)
+            want = f"recv={show(after if p['inplace'] else before)} res={show(after)}"
+        if c.impl_out != want:
+            return f"Data.apply_masking gives {c.impl_out} ({(c.extra or {}).get('exc', '') if isinstance(c.extra, dict) else ''}), expected {want}"
+        return None
+    if c.stream == "C07.dtype":
+        path = dtype_file(p)
+        if c.impl_out.startswith("raised:"):
+            return f"cfdm {c.impl_out} ({(c.extra or {}).get('exc') if isinstance(c.extra, dict) else ''})"
+        bad = []
+        mrefs = [x.split("/")[2] for x in str(c.model_out).split("|")] if c.model_out and "/" in str(c.model_out) else None
+        for i, (v, o) in enumerate(zip(p["vars"], c.impl_out.split("|"))):
+            adv, got = o.split("/")
+            if adv != got:
+                # what is announced before the data are fetched is not what is delivered
+                bad.append(f"{v['name']}:advertised:{adv}!={got}")
+            try:
+                ref = dcode(ref_read(path, v["name"], True, p["unpack"]).dtype)
+            except Exception:
+                continue   # the reference library cannot read this variable: it prescribes nothing
+            if got != ref:
+                bad.append(f"{v['name']}:reference:{got}!={ref}")
+            if mrefs is not None and mrefs[i] != ref:
+                bad.append(f"{v['name']}:model-reference:{mrefs[i]}!={ref}")
+        if bad:
+            return "dtype " + ";".join(bad)
+        return None
     return None
 
 
@@ -1075,6 +1559,11 @@ def classify_known(c):
             if p["route"] == "data" and mv is not None and (vector_mv(var) or ("text" in mv and not is_str(dt))) \
                     and out in ("raised:ValueError", "raised:TypeError"):
                 return "data-array-raises-missing-value-unusable-as-fill-value"
+            if var.get("scalar") and p["route"] == "data" and p["mask"] and (
+                    (p["backend"] == "h5netcdf" and out == "raised:AttributeError")
+                    or (is_str(dt) and out == "raised:TypeError")):
+                # the masked constant: not writeable (h5netcdf), or float64 with a text fill value (both)
+                return "scalar-missing-value-data-array-raises"
             return None
         if uns_true(var) and p["unpack"] and dt[0] == "f":
             return "unsigned-view-of-non-integer-data"
@@ -1090,6 +1579,30 @@ def classify_known(c):
                     and DEFAULT_FILL[dt] in sel:
                 return "unsigned-view-default-fill-value-reinterpreted"
         return None
+    if c.stream == "C07.dtype":
+        if raised:
+            # (every variable of the file is a candidate data variable, so any of them raises)
+            if any(text_scale(v) for v in p["vars"]) and out == "raised:TypeError":
+                return "read-text-scale-factor-or-add-offset-raises"
+            return None
+        if not why.startswith("dtype "):
+            return None
+        byname = {v["name"]: v for v in p["vars"]}
+        kinds = set()
+        for item in why[6:].split(";"):
+            name, kind, rest = item.split(":")
+            v = byname[name]
+            a, b = rest.split("!=")
+            if kind == "advertised" and a == head_advertised(v, p["unpack"]):
+                # exactly what the reader without fixes/C07-unpacked-dtype.patch announces
+                kinds.add("advertised")
+            elif kind == "reference" and p["unpack"] and trivial_single(v) and b == dcode(viewed_dtype(v)):
+                kinds.add("reference")
+            else:
+                return None
+        if "advertised" in kinds:
+            return "data-dtype-advertised-differs-from-delivered"
+        return "unpack-neutral-single-scale-or-offset-casts-to-attribute-dtype"
     if c.stream == "C07.apply":
         allv = apply_vars(p)
         if raised and "in read" in why:
@@ -1100,8 +1613,6 @@ def classify_known(c):
             return None
         if any(has_unsafe(v) or str_valid(v) for _, v in allv):
             return "apply-masking-attribute-not-safely-castable"
-        if any(vector_mv(v) for _, v in allv):
-            return "apply-masking-vector-missing-value"
         if any(range_conflict(v) for _, v in allv):
             return "apply-masking-valid-range-with-valid-min-max-or-wrong-size"
         if any(transformed(v, p["unpack"]) for _, v in allv):
@@ -1110,6 +1621,9 @@ def classify_known(c):
             return "apply-masking-bounds-inherit-parent-attributes"
         if any(v["dt"] == "str" and "" in v["data"] for _, v in allv) and not raised:
             return "vlen-string-empty-string-masked"
+        if any(vector_mv(v) for _, v in allv):
+            # last of the input-keyed findings: the proposed patch removes it, the others stay
+            return "apply-masking-vector-missing-value"
         if why.startswith("copy-swap:"):
             return "field-apply-masking-copy-masks-receiver-constructs"
         if any(nan_fill(v) for _, v in allv) and not raised:
@@ -1152,7 +1666,7 @@ def shrink(c, run):
     p = copy.deepcopy(c.payload)
     if c.stream == "C07.read":
         n = len(p["var"]["data"])
-        for i in positions(p["ix"], n):
+        for i in ([] if p["var"].get("scalar") else positions(p["ix"], n)):
             q = dict(copy.deepcopy(p), ix=dict(l=[i]))
             r = _still_fails(c.stream, q, sig)
             if r is not None:
